@@ -1,0 +1,147 @@
+//go:build verif
+
+package pogreb
+
+import (
+	"sync/atomic"
+)
+
+// This file is only compiled with the "verif" build tag. It exposes internal
+// state to the external verification harness and never changes behaviour.
+
+type verifYieldHolder struct{ fn func(point string) }
+
+var verifYieldFn atomic.Value // of verifYieldHolder
+
+// VerifSetYield installs a callback invoked at named points where the database
+// holds none of its locks (nil uninstalls it).
+func VerifSetYield(fn func(point string)) {
+	verifYieldFn.Store(verifYieldHolder{fn: fn})
+}
+
+func verifYield(point string) {
+	if h, ok := verifYieldFn.Load().(verifYieldHolder); ok && h.fn != nil {
+		h.fn(point)
+	}
+}
+
+// VerifSetThresholds sets the unexported segment/compaction thresholds.
+func VerifSetThresholds(opts *Options, maxSegmentSize, compactionMinSegmentSize uint32, compactionMinFragmentation float32) {
+	opts.maxSegmentSize = maxSegmentSize
+	opts.compactionMinSegmentSize = compactionMinSegmentSize
+	opts.compactionMinFragmentation = compactionMinFragmentation
+}
+
+// VerifHashSeed returns the hash seed.
+func (db *DB) VerifHashSeed() uint32 {
+	db.mu.RLock()
+	defer db.mu.RUnlock()
+	return db.hashSeed
+}
+
+// VerifSetHashSeed pins the hash seed; allowed only while the database is empty.
+func (db *DB) VerifSetHashSeed(seed uint32) bool {
+	db.mu.Lock()
+	defer db.mu.Unlock()
+	if db.index.count() != 0 {
+		return false
+	}
+	db.hashSeed = seed
+	return true
+}
+
+// VerifHash returns the hash of the key under the current seed.
+func (db *DB) VerifHash(key []byte) uint32 {
+	return db.hash(key)
+}
+
+// VerifIndexDump is a raw copy of the index state.
+type VerifIndexDump struct {
+	Level          uint8
+	NumKeys        uint32
+	NumBuckets     uint32
+	SplitBucketIdx uint32
+	FreeBucketOffs []int64
+	MainSize       int64
+	OverflowSize   int64
+	Main           []byte
+	Overflow       []byte
+}
+
+// VerifDumpIndex copies the index files and metadata under the read lock.
+func (db *DB) VerifDumpIndex() (VerifIndexDump, error) {
+	db.mu.RLock()
+	defer db.mu.RUnlock()
+	idx := db.index
+	d := VerifIndexDump{
+		Level:          idx.level,
+		NumKeys:        idx.numKeys,
+		NumBuckets:     idx.numBuckets,
+		SplitBucketIdx: idx.splitBucketIdx,
+		FreeBucketOffs: append([]int64(nil), idx.freeBucketOffs...),
+		MainSize:       idx.main.size,
+		OverflowSize:   idx.overflow.size,
+	}
+	m, err := idx.main.Slice(0, idx.main.size)
+	if err != nil {
+		return d, err
+	}
+	d.Main = append([]byte(nil), m...)
+	o, err := idx.overflow.Slice(0, idx.overflow.size)
+	if err != nil {
+		return d, err
+	}
+	d.Overflow = append([]byte(nil), o...)
+	return d, nil
+}
+
+// VerifSegment describes one datalog segment.
+type VerifSegment struct {
+	ID            uint16
+	SequenceID    uint64
+	Name          string
+	Size          int64
+	Current       bool
+	Full          bool
+	PutRecords    uint32
+	DeleteRecords uint32
+	DeletedKeys   uint32
+	DeletedBytes  uint32
+}
+
+func verifSegInfo(seg *segment, cur *segment) VerifSegment {
+	return VerifSegment{
+		ID:            seg.id,
+		SequenceID:    seg.sequenceID,
+		Name:          seg.name,
+		Size:          seg.size,
+		Current:       seg == cur,
+		Full:          seg.meta.Full,
+		PutRecords:    seg.meta.PutRecords,
+		DeleteRecords: seg.meta.DeleteRecords,
+		DeletedKeys:   seg.meta.DeletedKeys,
+		DeletedBytes:  seg.meta.DeletedBytes,
+	}
+}
+
+// VerifSegments lists the segments ordered by sequence ID.
+func (db *DB) VerifSegments() []VerifSegment {
+	db.mu.RLock()
+	defer db.mu.RUnlock()
+	var out []VerifSegment
+	for _, seg := range db.datalog.segmentsBySequenceID() {
+		out = append(out, verifSegInfo(seg, db.datalog.curSeg))
+	}
+	return out
+}
+
+// VerifPick returns what pickForCompaction would return now.
+func (db *DB) VerifPick() []VerifSegment {
+	db.mu.RLock()
+	defer db.mu.RUnlock()
+	var out []VerifSegment
+	for _, seg := range db.pickForCompaction() {
+		out = append(out, verifSegInfo(seg, db.datalog.curSeg))
+	}
+	return out
+}
